@@ -828,7 +828,7 @@ def run_stress(spec, acc):
                         h.do_sched(c, 'play', None, plan, kind, ('thread', wi))
                     else:
                         h.do_sched(c, 'rel', rng.choice(
-                            [0, 0, 0.001, 0.005, 0.01, 0.02, 0.05, 0.1]),
+                            [-0.01, 0, 0, 0.001, 0.005, 0.01, 0.02, 0.05, 0.1]),
                             plan, kind, ('thread', wi))
             except Exception as e:
                 h.errors.append(('worker', short_tb(e)))
